@@ -102,7 +102,7 @@ def tagsOf (prev next : Obs) (op : Op) (res : Res) : List String :=
 def auditsFor (profile : String) : List String :=
   if profile == "invalid" then []
   else if profile == "malformed" then ["C12"]
-  else ["C02", "C03", "C04", "C12", "C13"]
+  else ["C02", "C03", "C04", "C06", "C12", "C13"]
 
 def emit (out : IO.FS.Stream) (s : String) : IO Unit := out.putStrLn s
 
@@ -157,16 +157,16 @@ def handleObs (st : St) (toks : List String) (out : IO.FS.Stream) : IO St := do
         if !h.kDead then
           if res == .panic then
             if !m'.faulted then
-              emit out s!"K {h.id} {h.opIdx} fault impl=PANIC model=ok op={opLine}"
+              emit out s!"K {h.id} {h.opIdx} fault:impl=PANIC,model=ok tr={if prev.trading then 1 else 0} op={opLine}"
               st := { st with nK := st.nK + 1 }
             h := { h with kDead := true }
           else if m'.faulted then
-            emit out s!"K {h.id} {h.opIdx} fault impl=ok model=FAULT op={opLine}"
+            emit out s!"K {h.id} {h.opIdx} fault:impl=ok,model=FAULT tr={if prev.trading then 1 else 0} op={opLine}"
             st := { st with nK := st.nK + 1 }
             h := { h with kDead := true }
           else if mo != impl || mres != res then
             let fields := diffObs mo impl ++ (if mres != res then ["result"] else [])
-            emit out s!"K {h.id} {h.opIdx} {",".intercalate fields} op={opLine}"
+            emit out s!"K {h.id} {h.opIdx} {",".intercalate fields} tr={if prev.trading then 1 else 0} op={opLine}"
             st := { st with nK := st.nK + 1 }
             h := { h with kDead := true }
         -- reference engine
@@ -175,12 +175,12 @@ def handleObs (st : St) (toks : List String) (out : IO.FS.Stream) : IO St := do
         if !h.rDead && h.profile != "invalid" && res != .panic then
           if ro != impl || rres != res then
             let fields := diffObs ro impl ++ (if rres != res then ["result"] else [])
-            emit out s!"R {h.id} {h.opIdx} {",".intercalate fields} op={opLine}"
+            emit out s!"R {h.id} {h.opIdx} {",".intercalate fields} tr={if prev.trading then 1 else 0} op={opLine}"
             st := { st with nR := st.nR + 1 }
             h := { h with rDead := true }
         -- lock-step shadow of a snapshot reload (C07): reported by the harness
         if sh != "ok" then
-          emit out s!"A C07 {h.id} {h.opIdx} reload_{sh} op={opLine}"
+          emit out s!"A C07 {h.id} {h.opIdx} reload_{sh} tr={if prev.trading then 1 else 0} op={opLine}"
           st := { st with nA := st.nA + 1 }
         -- audits on the implementation's own observations
         let neverDisabled := h.neverDisabled && impl.trading && prev.trading
@@ -190,11 +190,12 @@ def handleObs (st : St) (toks : List String) (out : IO.FS.Stream) : IO St := do
               if a == "C02" then Audit.c02Views h.tick h.nLevels impl ++ Audit.c02Uncrossed neverDisabled impl
               else if a == "C03" then Audit.c03Ledger prev impl op
               else if a == "C04" then Audit.c04Lifecycle prev impl ++ Audit.c04Noop prev impl op
+              else if a == "C06" then Audit.c06Modify h.tick prev impl op
               else if a == "C12" then Audit.c12Grid h.tick h.nLevels prev impl op res
               else if a == "C13" then Audit.c13NoTrading prev impl op
               else []
             if !fails.isEmpty then
-              emit out s!"A {a} {h.id} {h.opIdx} {",".intercalate fails} op={opLine}"
+              emit out s!"A {a} {h.id} {h.opIdx} {",".intercalate fails} tr={if prev.trading then 1 else 0} op={opLine}"
               st := { st with nA := st.nA + 1 }
         -- statistics
         let tags := tagsOf prev impl op res
